@@ -102,6 +102,12 @@ register("C18", "exploration",
  "exhaustive signal-position sweep + Hypothesis schedules + crash-point enumeration, reference outcome per signal kind",
  "DESIGN.md section 3 C18")
 
+register("C04", "exploration",
+ "Seven racing-start scenarios (AND / first-of / quorum joins with 2-3 simultaneous StartStage messages, duplicated StartStage of an initial stage, first-of / quorum joins whose late branch completes while the join starts) are executed by 2-3 workers whose interleaving the harness owns at SQL-statement / commit granularity: ALL schedules with <= P pre-emptions (P=2 for 2 workers, 1 for 3; thorough 3/2) plus random deeper ones, then a sequential drain; exactly one start, one plan (one StartTask), one execution per task, one downstream start, SUCCEEDED.",
+ "Shared in-memory connection with the baton never moving inside a transaction = statement-level interleaving under SQLite's single-writer semantics; SQLITE_BUSY outcomes and pre-emption inside C code are out of reach; bounded by the pre-emption bound.",
+ "bounded-exhaustive schedule enumeration (pre-emption bounding) + random schedules over a harness-owned scheduler, invariant over the audit/ledger",
+ "DESIGN.md section 3 C04")
+
 NOT_APPLICABLE = {}
 
 def main():
